@@ -1152,3 +1152,110 @@ func coldChild(args []string) {
 	}
 	fmt.Println("COLD-DONE")
 }
+
+// ---------------- C03: megabyte-sized inputs in a child process ----------------
+// A stack overflow is a fatal error, not a panic: recover() cannot see it and it takes the whole process down.  Inputs
+// whose nesting depth or length is in the millions therefore run in a child; the protocol line "D <kind> <n>" is
+// answered "D returns" or "D CRASH <first line of the runtime's message>".
+func deepInput(kind string, n int) string {
+	switch kind {
+	case "open":
+		return strings.Repeat("(", n)
+	case "nest":
+		return strings.Repeat("(", n) + "MIT" + strings.Repeat(")", n)
+	case "close":
+		return "MIT" + strings.Repeat(")", n)
+	case "and":
+		return strings.Repeat("MIT AND ", n) + "MIT"
+	case "or":
+		return strings.Repeat("MIT OR ", n) + "ISC"
+	case "nest_or":
+		return strings.Repeat("(MIT OR ", n) + "ISC" + strings.Repeat(")", n)
+	}
+	return "MIT"
+}
+
+func deepChild(args []string) {
+	n, _ := strconv.Atoi(args[1])
+	s := deepInput(args[0], n)
+	spdxexp.ValidateLicenses([]string{s})
+	spdxexp.Satisfies(s, []string{"ISC"})
+	spdxexp.Satisfies("MIT", []string{s})
+	spdxexp.ExtractLicenses(s)
+	fmt.Println("DEEP-DONE")
+}
+
+func evalDeep(kind string, n string) string {
+	self, err := os.Executable()
+	if err != nil {
+		return "D unsupported"
+	}
+	cmd := exec.Command(self, "c03deep", kind, n)
+	var ob, eb bytes.Buffer
+	cmd.Stdout, cmd.Stderr = &ob, &eb
+	if err := cmd.Start(); err != nil {
+		return "D unsupported"
+	}
+	done := make(chan error, 1)
+	go func() { done <- cmd.Wait() }()
+	select {
+	case <-done:
+	case <-time.After(600 * time.Second):
+		cmd.Process.Kill()
+		return "D CRASH no answer within 600 s"
+	}
+	if strings.Contains(ob.String(), "DEEP-DONE") {
+		return "D returns"
+	}
+	msg := "process died"
+	for _, l := range strings.Split(eb.String(), "\n") {
+		if strings.HasPrefix(l, "fatal error") || strings.HasPrefix(l, "panic") {
+			msg = strings.ReplaceAll(l, " ", "_")
+			break
+		}
+	}
+	return "D CRASH " + msg
+}
+
+var deepOnce sync.Once
+var deepResults = map[string]string{}
+var deepOrder []string
+
+func deepProbes(c *Ctx) {
+	deepOnce.Do(func() {
+		cases := [][2]string{{"open", "3000000"}, {"nest", "2500000"}}
+		if c.thorough() {
+			cases = append(cases, [2]string{"open", "8000000"}, [2]string{"nest", "6000000"}, [2]string{"close", "3000000"}, [2]string{"nest_or", "1500000"}, [2]string{"and", "1500000"}, [2]string{"or", "1500000"})
+		}
+		var wg sync.WaitGroup
+		var mu sync.Mutex
+		sem := make(chan struct{}, 3)
+		for _, k := range cases {
+			l := "D " + k[0] + " " + k[1]
+			deepOrder = append(deepOrder, l)
+			wg.Add(1)
+			go func(l string, k [2]string) {
+				defer wg.Done()
+				sem <- struct{}{}
+				defer func() { <-sem }()
+				r := evalDeep(k[0], k[1])
+				mu.Lock()
+				deepResults[l] = r
+				mu.Unlock()
+			}(l, k)
+		}
+		wg.Wait()
+	})
+	for _, l := range deepOrder {
+		if _, ok := c.memo[l]; !ok {
+			c.memo[l] = deepResults[l]
+			c.order = append(c.order, l)
+		}
+		c.count("deep_inputs_in_child_processes")
+		if strings.HasPrefix(deepResults[l], "D CRASH") {
+			f := strings.Split(l, " ")
+			c.fail("ValidateLicenses / Satisfies / ExtractLicenses", map[string]interface{}{"input": "deepInput(" + f[1] + ", " + f[2] + ")", "kind": f[1], "n": f[2], "deep_line": l},
+				strings.TrimPrefix(deepResults[l], "D "), "a result or an error value", "the three entry points called on the input in a child process (a fatal runtime error cannot be recovered)")
+		}
+	}
+}
